@@ -27,7 +27,7 @@ def ort_run(model_bytes: bytes, feeds: dict):
     so.graph_optimization_level = ort.GraphOptimizationLevel.ORT_DISABLE_ALL
     try:
         sess = ort.InferenceSession(model_bytes, so, providers=["CPUExecutionProvider"])
-        names = {i.name for i in sess.get_inputs()}
+        names = {i.name for i in sess.get_inputs()} | {i.name for i in sess.get_overridable_initializers()}
         return sess.run(None, {k: v for k, v in feeds.items() if k in names}), None
     except Exception as e:  # noqa: BLE001
         return None, f"{type(e).__name__}: {str(e)[:300]}"
@@ -44,8 +44,9 @@ def ref_run(model_bytes: bytes, feeds: dict):
         return None, f"{type(e).__name__}: {str(e)[:300]}"
 
 
-def outputs_differ(a, b, rtol=1e-5, atol=1e-6):
-    """-> None if equal (up to round-off for floats) else a description"""
+def outputs_differ(a, b, rtol=1e-5, atol=1e-12, tols=None):
+    """-> None if equal (up to round-off for floats) else a description.
+    tols: optional per-output arrays of allowed absolute differences (forward-error bound from magnitudes)"""
     if a is None or b is None:
         if a is None and b is None:
             return None
@@ -67,7 +68,10 @@ def outputs_differ(a, b, rtol=1e-5, atol=1e-6):
             return f"output {i}: shape {x.shape} vs {y.shape}"
         if x.dtype.kind == "f":
             rt, at = (1e-12, 1e-13) if x.dtype == np.float64 else ((1e-2, 1e-3) if x.dtype.itemsize == 2 else (rtol, atol))
-            if not np.allclose(x, y, rtol=rt, atol=at, equal_nan=True):
+            if tols is not None and i < len(tols) and tols[i] is not None:
+                if x.size and np.any(np.abs(x.astype(np.float64) - y.astype(np.float64)) > np.asarray(tols[i], dtype=np.float64)):
+                    return f"output {i}: values {x.tolist()} vs {y.tolist()} (beyond forward-error bound {np.asarray(tols[i]).tolist()})"
+            elif not np.allclose(x, y, rtol=rt, atol=at, equal_nan=True):
                 return f"output {i}: values {x.tolist()} vs {y.tolist()}"
         elif not np.array_equal(x, y):
             return f"output {i}: values {x.tolist()} vs {y.tolist()}"
@@ -86,15 +90,47 @@ def to_list(outs):
     return r
 
 
+def forward_error_tols(model_a: bytes, model_b: bytes, feeds: dict):
+    """per-output allowed absolute difference 32*u*(mag_a + mag_b), magnitudes from a concrete symonnx run"""
+    import onnx_ir as ir
+    from . import interp as I
+    from . import ops as O
+    from .values import UNIT_ROUNDOFF, SV, const
+    try:
+        mags = []
+        for mb in (model_a, model_b):
+            m = ir.from_proto(onnx.load_from_string(mb))
+            ins = {v.name: const(feeds[v.name]) for v in m.graph.inputs if v.name in feeds}
+            res = I.interpret(m, ins, track_mag=True, loop_bound=8)
+            if len(res) != 1 or res[0]["bottom"]:
+                return None
+            mags.append(res[0]["outs"])
+        tols = []
+        for a, b in zip(*mags):
+            if not isinstance(a, SV) or a.kind != "f":
+                tols.append(None)
+                continue
+            u = float(UNIT_ROUNDOFF.get(a.dtype, 2.0**-24))
+            ma, mb_ = O._mag(a), O._mag(b)
+            t = np.empty(a.shape, dtype=np.float64)
+            for idx in np.ndindex(*a.shape):
+                t[idx] = 32 * u * (float(ma[idx]) + float(mb_[idx]))
+            tols.append(t)
+        return tols
+    except Exception:  # noqa: BLE001
+        return None
+
+
 def replay_pair(model_a: bytes, model_b: bytes, feeds: dict) -> dict:
     """two models, same feeds: do they differ on onnxruntime (cross-checked with onnx.reference)?"""
     oa, ea = ort_run(model_a, feeds)
     ob, eb = ort_run(model_b, feeds)
-    d = outputs_differ(oa, ob)
+    tols = forward_error_tols(model_a, model_b, feeds)
+    d = outputs_differ(oa, ob, tols=tols)
     ra, rea = ref_run(model_a, feeds)
     rb, reb = ref_run(model_b, feeds)
-    dref = outputs_differ(ra, rb)
-    return {"reproduced": d is not None, "difference": d, "ort_a": to_list(oa), "ort_b": to_list(ob), "ort_err_a": ea, "ort_err_b": eb,
+    dref = outputs_differ(ra, rb, tols=tols)
+    return {"forward_error_bound_used": tols is not None, "reproduced": d is not None, "difference": d, "ort_a": to_list(oa), "ort_b": to_list(ob), "ort_err_a": ea, "ort_err_b": eb,
             "reference_agrees": (dref is not None) == (d is not None), "reference_difference": dref}
 
 
